@@ -507,6 +507,12 @@ class InClass:
         overlap = int_param(params, md, 'overlap', 0)
         orphan = int_param(params, md, 'orphan', '0')
         start, end, sz = opt(start, end, size, orphan, sequence)
+        if end > start:
+            # an explicit ``end`` may point beyond the sequence
+            try:
+                sequence[end - 1]
+            except IndexError:
+                end = len(sequence)
         if 'next' in params:
             next = 1
         if 'previous' in params:
